@@ -88,7 +88,21 @@ LETTERS = 'abcdefghijklmnopqrstuvwxyz'
 NAME_POOL = ['a', 'b', 'c', 'x', 'y', 'z2', 'foo', 'bar', 'baz', 'tbl',
              'col1', 'qty', 'amount', 'cust', 'ordr', 'Foo', 'BAR', 'myTable',
              't1', 't2', 'u', 'v', 'w', 'k1', 'idx', 'total_amt', '_x', 'a_b',
-             'Äb', 'Über', 'x9', 'itm', 'grp', 'nm']
+             'Äb', 'Über', 'x9', 'itm', 'grp', 'nm',
+             # names that start or end like a keyword (rule boundaries)
+             'description', 'descr', 'desc_id', 'ascii_code', 'asc_tab',
+             'endpoint', 'end_date', 'joined', 'join_date', 'notes',
+             'nullable', 'order_id', 'group_id', 'union_id', 'in_stock',
+             'as_of', 'from_date', 'case_id', 'values_x', 'using_x', 'likes',
+             'go_live', 'create_dt', 'selected', 'created_at', 'where_x',
+             'limit_x', 'ontime', 'andrew', 'interval_x', 'date_x',
+             'timestamp_x', 'begin_dt', 'declare_x', 'loop_x', 'for_x',
+             'while_x', 'then_x', 'elsewhere', 'whenever', 'null_x',
+             'nulls_x', 'first_x', 'last_name', 'primary_x', 'key_x',
+             'double_x', 'lateral_x', 'handler_x', 'at_time', 'not_null_x',
+             'regexp_x', 'ilike_x', 'casey', 'ifx', 'iffy', 'endif',
+             'orderby', 'groupby', 'leftjoin', 'xjoin', 'xend', 'xcase',
+             'xfrom', 'xas', 'xin', 'INx', 'ASx', 'FROMx', 'CASEx']
 FUNC_POOL = ['f', 'g', 'coalesce2', 'myfn', 'upper2', 'lower2', 'nvl2',
              'concat2', 'fn_x', 'agg1', 'sum2', 'len2']
 TYPE_POOL = ['int', 'integer', 'text', 'varchar', 'numeric', 'bigint']
@@ -132,6 +146,7 @@ class Config:
         self.limit = True
         self.distinct = True
         self.unary_minus = True
+        self.keyword_literals = True
         for k, v in kw.items():
             if not hasattr(self, k):
                 raise TypeError(k)
@@ -321,6 +336,12 @@ class Gen:
             i = self.dollar(gap)
             self.s.features.add('dollar')
             return i, i, 'dollar'
+        if x < 0.99 and cfg.keyword_literals and x >= 0.985:
+            w = rng.choice(['NULL', 'null', 'Null', 'TRUE', 'true', 'FALSE',
+                            'false'])
+            i = self.emit('kw', w, gap if gap is not None else self.g())
+            self.s.features.add('kwlit')
+            return i, i, 'null' if w.upper() == 'NULL' else 'bool'
         if x < 0.985 and cfg.unary_minus:
             # unary minus: an operator directly followed by its operand (and,
             # behind a comparison, directly preceded by another operator)
@@ -389,12 +410,13 @@ class Gen:
                 n = 1
             elif rng.random() < 0.3:
                 n = rng.choice([1, 1, 2, 3])
-        pure = kind not in ('case', 'dollar', 'neg')
+        pure = kind not in ('case', 'dollar', 'neg', 'null', 'bool')
         for _ in range(n):
             self.emit('op', rng.choice(['+', '-', '*', '/', '||', '%']),
                       'req')
             _, l, k2 = self.atom(depth, 'req')
-            pure = pure and k2 not in ('case', 'dollar', 'neg')
+            pure = pure and k2 not in ('case', 'dollar', 'neg', 'null',
+                                       'bool')
             # an operand the operator grouping does not accept (CASE,
             # dollar-quoted literal) leaves the expression ungrouped
             kind = 'operation' if pure else 'operation-x'
@@ -538,8 +560,20 @@ class Gen:
                        name=nm, alias=al, has_as=has_as, ctx=ctx, name_tok=l)
             self.s.refs.append(ref)
             return f, ref['last'], 'col'
+        if self.cfg.keyword_literals and rng.random() < 0.06:
+            # NULL [AS alias] as a list item, in any letter case
+            w = rng.choice(['NULL', 'null', 'Null', 'nULL'])
+            f = self.emit('kw', w, self.g())
+            if rng.random() < 0.6:
+                self.kw(rng.choice(['AS', 'as']))
+                ai, _ = self.name_token('req')
+                self.s.features.add('null-as')
+                return f, ai, 'aliased'
+            return f, f, 'null'
         f, l, kind = self.expr(depth, self.g())
         bare_ok = kind in ('col', 'call', 'paren')
+        if kind == 'bool':
+            return f, l, kind          # TRUE/FALSE carry no alias
         al, has_as, ai = self.alias(allow_bare=bare_ok)
         if ai is not None and kind not in ('operation-x', 'neg'):
             kind = 'aliased'
